@@ -81,7 +81,16 @@ PureDiagram ==
                LET a == E.alone[k]
                    j == CHOOSE i \in 1..n : P[i].T = a.T
                IN a.ok => (CSame(<<k, "p">>, P[j].p, a.p) /\ CSame(<<k, "rv">>, P[j].rv, a.rv) /\ CSame(<<k, "rl">>, P[j].rl, a.rl)))
-     /\ cnt' = BumpAll(cnt, {"pure_diagrams"} \cup (IF E.ok /\ n = E.n THEN {"pure_diagrams_complete"} ELSE {}))
+     \* C12: an initial value for the critical temperature changes neither the temperature grid nor the states
+     /\ ((E.ok /\ Has(E, "guessed")) =>
+           \A q \in 1..Len(E.guessed) :
+              LET gd == E.guessed[q] IN
+              gd.ok => Report("C12.diagram_independent_of_critical_temperature_guess", <<E.case, E.n, gd.f, Len(gd.T), n, l>>,
+                              /\ Len(gd.T) = n
+                              /\ \A k \in 1..n : /\ FClose(gd.T[k], P[k].T, "1e-6", FAbs(P[k].T), "0")
+                                                  /\ FClose(gd.p[k], P[k].p, "1e-4", FAbs(P[k].p), "0")))
+     /\ cnt' = BumpAll(cnt, {"pure_diagrams"} \cup (IF E.ok /\ n = E.n THEN {"pure_diagrams_complete"} ELSE {})
+                            \cup (IF E.ok /\ Has(E, "guessed") THEN {"pure_diagrams_with_critical_temperature_guess"} ELSE {}))
   /\ UNCHANGED lastBubble
 
 \* ---------------------------------------------------------------- C06
